@@ -27,6 +27,7 @@ pub struct Norm {
     pub iter_on: Vec<String>,
     pub iter_vec: Vec<String>,
     pub deref_params: Vec<String>,
+    pub entry_place: bool,
     pub keyed_mut_iter: Vec<(String, String, String)>,
     lvalue_depth: usize,
     tmp_counter: usize,
@@ -273,6 +274,7 @@ impl Norm {
             iter_on: strs("iter_on"),
             iter_vec: strs("iter_vec"),
             deref_params: strs("deref_params"),
+            entry_place: req["entry_place"].as_bool().unwrap_or(false),
             keyed_mut_iter: strs("keyed_mut_iter")
                 .iter()
                 .filter_map(|x| {
@@ -932,6 +934,16 @@ impl VisitMut for Norm {
                             self.log("N3-unwrap_or_else-panic", sp);
                         }
                     }
+                    "or_default" if self.entry_place && mc.args.is_empty() && matches!(&*mc.receiver, Expr::MethodCall(en) if en.method == "entry" && en.args.len() == 1) => {
+                        // N8g2: `M.entry(K).or_default()` (used as a place: `.field.push(..)`, `.insert(..)`) => hq_map_entry_or_default(&mut M, K)
+                        if let Expr::MethodCall(en) = &*mc.receiver {
+                            let m = &en.receiver;
+                            let k = &en.args[0];
+                            let ne: Expr = parse_quote!(hq_map_entry_or_default(&mut #m, #k));
+                            *e = ne;
+                            self.log("N8g2-entry-or_default", sp);
+                        }
+                    }
                     "unwrap_or_else" if mc.args.len() == 1 && matches!(&mc.args[0], Expr::Closure(c) if c.inputs.is_empty() && !body_has_return(&c.body)) => {
                         // N7f: OPT.unwrap_or_else(|| D) => match OPT { Some(x) => x, None => D } (D stays lazily evaluated)
                         if let Expr::Closure(c) = &mc.args[0] {
@@ -1482,6 +1494,73 @@ fn body_has_return(e: &Expr) -> bool {
 /// N11 (nested): the nth statement, at any depth, whose token text starts with `anchor`; together with the `let`
 /// statements that precede it in the enclosing blocks (outermost first, source order) for N11b.
 pub fn find_stmt(b: &Block, anchor: &str, nth: usize) -> Option<(Stmt, Vec<Local>)> {
+    find_stmts(b, anchor, nth, None).map(|(mut v, c)| (v.remove(0), c))
+}
+
+/// like find_stmt, but with `until`: the found statement and its following siblings (same block) up to and including
+/// the first one whose token text starts with `until`
+pub fn find_stmts(b: &Block, anchor: &str, nth: usize, until: Option<&str>) -> Option<(Vec<Stmt>, Vec<Local>)> {
+    let norm = |s: &str| s.chars().filter(|c| !c.is_whitespace()).collect::<String>();
+    let a = norm(anchor);
+    struct V {
+        a: String,
+        u: Option<String>,
+        left: usize,
+        found: Option<Vec<Stmt>>,
+        stack: Vec<Vec<Local>>,
+        ctx: Vec<Local>,
+    }
+    impl<'ast> syn::visit::Visit<'ast> for V {
+        fn visit_block(&mut self, b: &'ast Block) {
+            self.stack.push(vec![]);
+            for (idx, st) in b.stmts.iter().enumerate() {
+                if self.found.is_some() {
+                    break;
+                }
+                let t: String = st.to_token_stream().to_string().chars().filter(|c| !c.is_whitespace()).collect();
+                if t.starts_with(&self.a) {
+                    self.left -= 1;
+                    if self.left == 0 {
+                        let mut out = vec![st.clone()];
+                        if let Some(u) = &self.u {
+                            let mut closed = false;
+                            for st2 in b.stmts.iter().skip(idx + 1) {
+                                out.push(st2.clone());
+                                let t2: String = st2.to_token_stream().to_string().chars().filter(|c| !c.is_whitespace()).collect();
+                                if t2.starts_with(u.as_str()) {
+                                    closed = true;
+                                    break;
+                                }
+                            }
+                            if !closed {
+                                // until-anchor not among the following siblings: report as not found
+                                self.left = usize::MAX;
+                                return;
+                            }
+                        }
+                        self.found = Some(out);
+                        self.ctx = self.stack.iter().flatten().cloned().collect();
+                        break;
+                    }
+                }
+                syn::visit::visit_stmt(self, st);
+                if self.found.is_none() {
+                    if let Stmt::Local(l) = st {
+                        self.stack.last_mut().unwrap().push(l.clone());
+                    }
+                }
+            }
+            self.stack.pop();
+        }
+    }
+    let mut v = V { a, u: until.map(norm), left: nth.max(1), found: None, stack: vec![], ctx: vec![] };
+    syn::visit::Visit::visit_block(&mut v, b);
+    let ctx = std::mem::take(&mut v.ctx);
+    v.found.map(|f| (f, ctx))
+}
+
+#[allow(dead_code)]
+fn find_stmt_old(b: &Block, anchor: &str, nth: usize) -> Option<(Stmt, Vec<Local>)> {
     let norm = |s: &str| s.chars().filter(|c| !c.is_whitespace()).collect::<String>();
     let a = norm(anchor);
     struct V {
